@@ -5,6 +5,7 @@ import random
 import warnings
 
 import numpy as np
+import pandas as pd
 
 import common as C
 import gen as G
@@ -110,8 +111,14 @@ def mk_iset(nap, ep):
     return nap.IntervalSet(G.arr([s for s, _ in ep]), G.arr([e for _, e in ep]))
 
 
+def ns_list(x):
+    """C.to_ns of every element (round half to even of x * 1e9), vectorised"""
+    return np.rint(np.asarray(x, dtype=np.float64) * 1e9).astype(np.int64).tolist()
+
+
 def ticks_iset(ep):
-    return [(C.to_ns(s), C.to_ns(e)) for s, e in ep.values]
+    v = ns_list(ep.values)
+    return [(a, b) for a, b in v]
 
 
 def mk_member(nap, kind, t, sup):
@@ -125,29 +132,236 @@ def mk_member(nap, kind, t, sup):
     return nap.Ts(G.arr(t), time_support=mk_iset(nap, sup))
 
 
-class Spec:
-    """a group to be constructed: keys (python object, code), tags, members (kind, t, sup) in ticks, support, flags"""
+# --------------------------------------------------------------------------------------
+# argument FORMS: the same instants / keys / flags handed over in another container, dtype, unit, call style or object history.
+# A form never changes what the statement expects: the oracle always works from the ticks of the specification.
+DIV = {"s": 10 ** 9, "ms": 10 ** 6, "us": 10 ** 3}
+INTF = {"i64": np.int64, "i32": np.int32, "i16": np.int16, "u8": np.uint8, "u16": np.uint16, "u32": np.uint32, "u64": np.uint64}
+TFORMS = ("f64", "list", "tuple", "series", "pdindex", "i64", "i32", "i16", "u8", "u16", "u32", "u64", "f32", "pyint", "unsorted", "view", "strided",
+          "tsindex", "dot_t", "scalar", "npscalar")
+RAW_TFORMS = ("f64", "list", "series", "pdindex", "i64", "i32", "i16", "u8", "u16", "u32", "u64", "f32", "pyint", "unsorted", "view", "strided", "tsindex", "dot_t")
+SFORMS = ("f64", "list", "tuple", "series", "i64", "i32", "u8", "u16", "u64", "f32", "pyint", "pairs", "pairs_list", "df", "copy", "meta", "shuffled", "scalar",
+          "npscalar", "view", "positional")
+DDTYPES = ("f64", "f32", "i64", "i32", "i16", "i8", "u8", "u16", "u64", "bool", "nan", "inf", "const", "zeros")
+CANON_KIND = {0: 0, 1: 1, 2: 2, 4: 4, 5: 0, 6: 0, 7: 2}   # 5 TsdFrame(t, d, support) 6 TsdTensor(t, d, support) 7 Tsd(t, d): same timestamps / support as Ts
+MODEL_KIND = {0: 0, 1: 1, 2: 2, 4: 0, 5: 0, 6: 0, 7: 2}
 
-    def __init__(self, keys, tags, members, sup, bypass, hastag=True, islist=False):
+
+def tvals(ticks, tu):
+    """the instants `ticks` (ns) as float64 numbers of the unit tu"""
+    if tu == "s":
+        return G.arr(ticks)
+    return np.asarray(ticks, dtype=np.float64) / DIV[tu] if len(ticks) else np.array([], dtype=np.float64)
+
+
+def tform(nap, ticks, tu, f, salt=0):
+    """the instants `ticks` as a time argument of unit tu in container / dtype form f -> (object, unit to pass) or None when f cannot hold them exactly"""
+    v = tvals(ticks, tu)
+    n = len(ticks)
+    whole = all(x % DIV[tu] == 0 for x in ticks)
+    iv = [x // DIV[tu] for x in ticks]
+    if f == "f64":
+        return v, tu
+    if f == "list":
+        return [float(x) for x in v], tu
+    if f == "tuple":
+        return tuple(float(x) for x in v), tu
+    if f == "series":
+        return pd.Series(v, dtype=np.float64), tu
+    if f == "pdindex":
+        return pd.Index(v, dtype=np.float64), tu
+    if f in INTF:
+        ii = np.iinfo(INTF[f])
+        if not whole or (n and (min(iv) < ii.min or max(iv) > ii.max)):
+            return None
+        return np.array(iv, dtype=INTF[f]), tu
+    if f == "f32":
+        w = v.astype(np.float32)
+        return (w, tu) if np.array_equal(w.astype(np.float64), v) else None
+    if f == "pyint":
+        return ([int(x) for x in iv], tu) if whole else None
+    if f == "unsorted":
+        if n < 2 or ticks[0] == ticks[-1]:
+            return None
+        return (v[::-1].copy() if salt % 2 == 0 else np.roll(v, 1 + salt % (n - 1))), tu
+    if f == "view":
+        base = np.full(n + 2, -77.0)
+        base[1:-1] = v
+        return base[1:-1], tu
+    if f == "strided":
+        base = np.full(2 * n, -77.0)
+        base[::2] = v
+        return base[::2], tu
+    if f == "tsindex":     # another object's index: already seconds
+        return nap.Ts(v, time_units=tu).index, "s"
+    if f == "dot_t":
+        return nap.Ts(v, time_units=tu).t, "s"
+    if f == "scalar":
+        if n != 1:
+            return None
+        return (int(iv[0]) if whole and salt % 2 else float(v[0])), tu
+    if f == "npscalar":
+        if n != 1:
+            return None
+        if whole and salt % 3 == 0:
+            return np.int64(iv[0]), tu
+        if salt % 3 == 1 and float(np.float32(v[0])) == float(v[0]):
+            return np.float32(v[0]), tu
+        return np.float64(v[0]), tu
+    raise ValueError(f)
+
+
+def sform(nap, ep, tu, f, salt=0):
+    """the interval set ep (ticks) as an IntervalSet built in unit tu through form f, or None when f cannot hold it exactly"""
+    n = len(ep)
+    st, en = [s for s, _ in ep], [e for _, e in ep]
+    if f == "f64" and tu == "s":
+        return mk_iset(nap, ep)
+    if f in ("f64", "list", "tuple", "series", "f32", "pyint", "view") or f in INTF:
+        a, b = tform(nap, st, tu, f), tform(nap, en, tu, f)
+        if a is None or b is None:
+            return None
+        return nap.IntervalSet(start=a[0], end=b[0], time_units=tu)
+    if f == "positional":
+        return nap.IntervalSet(tvals(st, tu), tvals(en, tu), tu, None)
+    if f in ("scalar", "npscalar"):
+        a, b = tform(nap, st, tu, f, salt), tform(nap, en, tu, f, salt)
+        if a is None or b is None:
+            return None
+        return nap.IntervalSet(a[0], b[0], time_units=tu)
+    if f == "pairs":
+        return nap.IntervalSet(np.column_stack([tvals(st, tu), tvals(en, tu)]), time_units=tu) if n else None
+    if f == "pairs_list":
+        return nap.IntervalSet([(float(a), float(b)) for a, b in zip(tvals(st, tu), tvals(en, tu))], time_units=tu) if n else None
+    if f == "df":
+        return nap.IntervalSet(pd.DataFrame({"start": tvals(st, tu), "end": tvals(en, tu)}), time_units=tu)
+    if f == "copy":
+        return nap.IntervalSet(nap.IntervalSet(tvals(st, tu), tvals(en, tu), time_units=tu))
+    if f == "meta":
+        return nap.IntervalSet(tvals(st, tu), tvals(en, tu), time_units=tu, metadata={"lab": list(range(n))}) if n else None
+    if f == "shuffled":
+        return nap.IntervalSet(tvals(st, tu)[::-1].copy(), tvals(en, tu)[::-1].copy(), time_units=tu) if n >= 2 else None
+    raise ValueError(f)
+
+
+def sform_or(nap, ep, tu, f, salt=0):
+    """-> (IntervalSet, form actually used)"""
+    r = sform(nap, ep, tu, f, salt)
+    return (r, f) if r is not None else (sform(nap, ep, tu, "f64"), "f64")
+
+
+def ddata(n, dd, width=None):
+    """data of a Tsd / TsdFrame / TsdTensor member or source in dtype / content class dd (the statement speaks of timestamps only)"""
+    base = np.arange(n) + 50
+    if dd == "f64":
+        d = base.astype(np.float64)
+    elif dd == "f32":
+        d = base.astype(np.float32)
+    elif dd in ("i64", "i32", "i16", "i8", "u8", "u16", "u64"):
+        d = base.astype({"i64": np.int64, "i32": np.int32, "i16": np.int16, "i8": np.int8, "u8": np.uint8, "u16": np.uint16, "u64": np.uint64}[dd])
+    elif dd == "bool":
+        d = (base % 2).astype(bool)
+    elif dd == "nan":
+        d = base.astype(np.float64)
+        d[::2] = np.nan
+    elif dd == "inf":
+        d = base.astype(np.float64)
+        d[::3] = np.inf
+        d[1::3] = -np.inf
+    elif dd == "const":
+        d = np.full(n, 7.0)
+    else:
+        d = np.zeros(n)
+    if width is not None:
+        d = np.stack([d] * width[0], axis=1) if len(width) == 1 else np.stack([d] * (width[0] * width[1]), axis=1).reshape(n, width[0], width[1])
+    return d
+
+
+def mk_member_form(nap, kind, t, sup, tu, tf, sf, dd, salt, isets=None):
+    """a member in the requested form -> (object, forms actually used)"""
+    r = tform(nap, t, tu, tf, salt) if (tf in RAW_TFORMS if kind == 1 else (tf != "series" or kind in (0, 2))) else None   # Tsd(t=Series) means index + values
+    if r is None or (kind == 1 and r[1] != tu):
+        r, tf = (tvals(t, tu), tu), "f64"
+    tv, tue = r
+    if kind == 1:
+        return tv, (tf, None)
+    ts = None
+    if kind not in (2, 7):
+        key = (tuple(sup), sf)
+        if isets is not None and key in isets:
+            ts, sf = isets[key], sf + "+shared"
+        else:
+            ts, sf = sform_or(nap, sup, tu, sf, salt)
+            if isets is not None:
+                isets[key] = ts
+    else:
+        sf = None
+    n = len(t)
+    pos = salt % 2 == 0
+    if kind == 2:
+        return (nap.Ts(tv, tue) if pos else nap.Ts(t=tv, time_units=tue, time_support=None)), (tf, sf)
+    if kind == 0:
+        return (nap.Ts(tv, tue, ts) if pos else nap.Ts(time_support=ts, time_units=tue, t=tv)), (tf, sf)
+    if kind in (4, 7):
+        d = ddata(n, dd)
+        if tf == "scalar" and salt % 4 == 1:
+            d = d[0]
+        return (nap.Tsd(tv, d, tue, ts) if pos else nap.Tsd(t=tv, d=d, time_support=ts, time_units=tue)), (tf, sf)
+    if tf in ("scalar", "npscalar"):
+        tv = np.array([tv])
+    if kind == 5:
+        cols = [None, ["b", "a"], [7, 3], ["x", "x2"]][salt % 4]
+        return nap.TsdFrame(tv, ddata(n, dd, (2,)), tue, ts, columns=cols), (tf, sf)
+    return nap.TsdTensor(tv, ddata(n, dd, (2, 1)), time_units=tue, time_support=ts), (tf, sf)
+
+
+class Spec:
+    """a group to be constructed: keys (python object, code), tags, members (kind, t, sup) in ticks, support, flags.
+    form = None: the plain form (dict / list of objects built from float64 second arrays, keyword call); otherwise a dict
+    {tu, mf[], msf[], dd[], sf, call, data, md, share} that says how the SAME specification is handed to the library"""
+
+    def __init__(self, keys, tags, members, sup, bypass, hastag=True, islist=False, form=None):
         self.keys, self.tags, self.members, self.sup, self.bypass, self.hastag, self.islist = keys, tags, members, sup, bypass, hastag, islist
+        self.form = form
+        self.used = None
 
     def args(self):
         a = ["%d %d %d %d" % (self.sup is not None, self.bypass, self.hastag, self.islist),
              C.fmt_iset(self.sup or []),
              " ".join("%d %d" % c for _, c in self.keys),
              C.fmt_ints(self.tags),
-             C.fmt_ints([0 if k == 4 else k for k, _, _ in self.members])]
+             C.fmt_ints([MODEL_KIND[k] for k, _, _ in self.members])]
         for _, t, s in self.members:
             a.append(C.fmt_ints(t))
             a.append(C.fmt_iset(s or []))
         return a
 
     def desc(self):
-        return {"keys": [repr(k) for k, _ in self.keys], "tags": self.tags, "members": [(k, t, s) for k, t, s in self.members], "support": self.sup,
-                "bypass_check": self.bypass, "list_input": self.islist}
+        d = {"keys": [repr(k) for k, _ in self.keys], "tags": self.tags, "members": [(k, t, s) for k, t, s in self.members], "support": self.sup,
+             "bypass_check": self.bypass, "list_input": self.islist}
+        if self.form is not None:
+            d["form"] = self.form
+        if not self.hastag:
+            d["no_tag"] = True
+        return d
+
+    def _metadata(self, ik_list):
+        md = None
+        ik = ik_list
+        if self.hastag:
+            if ik is None:
+                try:
+                    ik = [int(k) for k, _ in self.keys]
+                except Exception:
+                    ik = None
+            if ik is not None and len(set(ik)) == len(ik):
+                order = sorted(range(len(ik)), key=lambda i: ik[i])
+                md = pd.DataFrame({"tag": [self.tags[i] for i in order]}, index=[ik[i] for i in order])
+        return md
 
     def build(self, nap):
-        import pandas as pd
+        if self.form is not None:
+            return self._build_form(nap)
         objs = [mk_member(nap, k, t, s) for k, t, s in self.members]
         kw = {}
         if self.sup is not None:
@@ -158,17 +372,84 @@ class Spec:
         else:
             data = {k: o for (k, _), o in zip(self.keys, objs)}
             ik = None
-        md = None
-        if self.hastag:
-            if ik is None:
-                try:
-                    ik = [int(k) for k, _ in self.keys]
-                except Exception:
-                    ik = None
-            if ik is not None and len(set(ik)) == len(ik):
-                order = sorted(range(len(ik)), key=lambda i: ik[i])
-                md = pd.DataFrame({"tag": [self.tags[i] for i in order]}, index=[ik[i] for i in order])
+        md = self._metadata(ik)
         return nap.TsGroup(data, bypass_check=self.bypass, metadata=md, **kw), objs
+
+    def _build_form(self, nap):
+        import collections
+        fm = self.form
+        tu, n = fm["tu"], len(self.members)
+        salt = fm.get("salt", 0)
+        share = fm.get("share", "none")
+        isets = {} if share in ("sup", "all") else None
+        objs, used, memo = [], [], {}
+        for i, (k, t, s) in enumerate(self.members):
+            mkey = (k, tuple(t), None if s is None else tuple(s))
+            if share in ("member", "all") and mkey in memo:      # the same live object under two keys
+                o, u = memo[mkey]
+                u = (u[0] + "+same_object", u[1])
+            else:
+                o, u = mk_member_form(nap, k, t, s, tu, fm["mf"][i], fm["msf"][i], fm["dd"][i], salt + i, isets)
+                memo[mkey] = (o, u)
+            objs.append(o)
+            used.append(u)
+        ts, sfu = None, None
+        if self.sup is not None:
+            key = (tuple(self.sup), fm["sf"])
+            if isets is not None and key in isets:
+                ts, sfu = isets[key], fm["sf"] + "+shared"
+            else:
+                ts, sfu = sform_or(nap, self.sup, tu, fm["sf"], salt)
+        if self.islist:
+            ik = list(range(n))
+            df = fm.get("data", "list")
+            data = {"list": lambda: objs, "tuple": lambda: tuple(objs), "gen": lambda: (o for o in objs), "iter": lambda: iter(objs),
+                    "values": lambda: dict(enumerate(objs)).values()}[df]()
+        else:
+            ik = None
+            df = fm.get("data", "dict")
+            data = {k: o for (k, _), o in zip(self.keys, objs)}
+            if df == "odict":
+                data = collections.OrderedDict(data)
+        md = self._metadata(ik)
+        mdf = fm.get("md", "df")
+        kwmd = {}
+        if md is not None and mdf == "dict":
+            md = {"tag": [int(x) for x in md["tag"].values]}
+        elif md is not None and mdf == "dict_float":
+            md = {"tag": [float(x) for x in md["tag"].values]}
+        elif md is not None and mdf == "dict_arr":
+            md = {"tag": np.asarray(md["tag"].values, dtype=np.int16)}
+        elif md is not None and mdf == "kwargs":
+            kwmd, md = {"tag": np.asarray(md["tag"].values)}, None
+        elif md is not None and mdf == "kw_series":
+            kwmd, md = {"tag": md["tag"]}, None
+        call = fm.get("call", "kw")
+        self.used = {"members": used, "support": sfu, "data": df, "md": mdf if self.hastag else None, "call": call}
+        by = self.bypass
+        if call == "pos" and not kwmd:
+            g = nap.TsGroup(data, ts, tu, by, md)
+        elif call == "allkw":
+            g = nap.TsGroup(data=data, time_support=ts, time_units=tu, bypass_check=by, metadata=md, **kwmd)
+        elif call == "mixed":
+            g = nap.TsGroup(data, ts, bypass_check=by, time_units=tu, metadata=md, **kwmd)
+        elif call == "min":     # only what differs from the defaults
+            kw = dict(kwmd)
+            if ts is not None:
+                kw["time_support"] = ts
+            if tu != "s":
+                kw["time_units"] = tu
+            if by:
+                kw["bypass_check"] = True
+            if md is not None:
+                kw["metadata"] = md
+            g = nap.TsGroup(data, **kw)
+        else:
+            kw = dict(kwmd)
+            if ts is not None:
+                kw["time_support"] = ts
+            g = nap.TsGroup(data, bypass_check=by, metadata=md, time_units=tu, **kw)
+        return g, objs
 
 
 def impl_state(g):
@@ -177,9 +458,10 @@ def impl_state(g):
     st = {"keys": keys, "sup": ticks_iset(g.time_support), "hastag": hastag,
           "tags": [int(g._metadata["tag"][k]) for k in g.keys()] if hastag else None,
           "index": [int(k) for k in g.index], "mem": []}
+    rates = g.rates
     for k in g.keys():
         m = g[k]
-        st["mem"].append(([C.to_ns(x) for x in m.t], ticks_iset(m.time_support), float(m.rate), float(g.rates[k])))
+        st["mem"].append((ns_list(m.t), ticks_iset(m.time_support), float(m.rate), float(rates[k])))
     return st
 
 
@@ -292,6 +574,187 @@ def construction_specs(tier, rng):
     return specs
 
 
+# --------------------------------------------------------------------------------------
+# construction in other argument forms
+KEYS_F = [(np.int64(5), (0, 5)), (np.float64(2.0), (3, 2)), (np.int8(-3), (0, -3)), (np.uint8(200), (0, 200)), (True, (0, 1)), (" 7", (1, 7)), ("+10", (1, 10)),
+          ("0012", (1, 12)), (np.float32(4.0), (3, 4)), (10 ** 6, (0, 10 ** 6)), (np.int16(0), (0, 0)), ("1_1", (1, 11)), (-1e3, (3, -1000)), ("-8", (1, -8))]
+BADKEYS_F = [("1e1", (2, 0)), ("7.0", (2, 0)), ("", (2, 0)), (float("nan"), (2, 0)), (float("inf"), (2, 0)), (np.float64(2.5), (4, 2)), ((1, 2), (2, 0)),
+             ("0x10", (2, 0)), (np.float32(-0.5), (4, 0)), ("seven", (2, 0))]
+DUPKEYS_F = [[(np.int64(5), (0, 5)), ("5", (1, 5))], [(" 7", (1, 7)), ("007", (1, 7))], [(True, (0, 1)), ("1", (1, 1))], [(np.float64(3.0), (3, 3)), ("3", (1, 3)), (4, (0, 4))]]
+TEMPL_F = [
+    ("N", 0, [3, 3, 3], [(0, 4)]),                       # all timestamps equal, explicit support
+    ("O", 2, [3, 3], None),                              # all timestamps equal, default support: EMPTY (known quirk, on purpose)
+    ("P", 0, [5], [(0, 12)]),                            # one sample
+    ("Q", 5, [1, 5, 11], [(0, 12)]),                     # a TsdFrame
+    ("R", 6, [2, 4, 9], [(1, 10)]),                      # a TsdTensor
+    ("S", 7, [2, 6, 9], None),                           # a Tsd with its default support
+    ("T", 1, [], None),                                  # an empty raw array
+    ("V", 2, [], None),                                  # an empty Ts
+    ("X", 0, list(range(12)), [(0, 3), (4, 7), (8, 11)]),  # many samples, three intervals, samples exactly on every end
+    ("Y", 1, [0, 6, 6, 12], None),                       # raw array with a duplicate
+    ("Z", 4, [0, 4, 8, 12], [(0, 4), (8, 12)]),          # a Tsd with samples on the ends of two intervals
+]
+LATTICES = [(U, "s"), (U, "ms"), (U, "us"), (10 ** 9, "s"), (10 ** 9, "ms"), (10 ** 9, "us"), (10 ** 6, "ms"), (10 ** 6, "us"), (10 ** 3, "us"), (10 ** 6, "s"), (10 ** 3, "s"),
+            (10 ** 8, "ms"), (10 ** 8, "us")]   # 0.1 s steps given in ms / us: whole numbers that a float32 holds exactly while their value in seconds is not a float32
+WHOLE_LATTICES = [3, 4, 5, 6, 7, 8, 11, 12]     # every lattice point is a whole number of the unit: integer dtypes can hold the times
+OFFSETS = [0, 0, -6, -13, "1e5s", "-1e3s"]    # in lattice steps, or an absolute offset (a multiple of every lattice step)
+CALLS = ("kw", "pos", "allkw", "mixed", "min")
+MDFORMS = ("df", "dict", "dict_arr", "dict_float", "kwargs", "kw_series")
+SHARES = ("none", "none", "sup", "member", "all")
+
+
+def off_ticks(o, unit):
+    return {"1e5s": 10 ** 14, "-1e3s": -10 ** 12}[o] if isinstance(o, str) else o * unit
+
+
+def lat(v, unit, off):
+    """template coordinate (n or (n, ns)) -> ticks on the lattice unit, shifted by off ticks"""
+    return v[0] * unit + v[1] + off if isinstance(v, tuple) else v * unit + off
+
+
+def lat_ep(ep, unit, off):
+    return [(lat(a, unit, off), lat(b, unit, off)) for a, b in ep]
+
+
+def relat(x, unit, off):
+    """a tick of the lattice U (as the operation generators draw them) -> the same lattice point of another lattice"""
+    q, r = divmod(x, U)
+    if r > U // 2:
+        q, r = q + 1, r - U
+    return q * unit + r + off
+
+
+def rand_form(rng, members, unit_i, c=None, pin=None):
+    """a random form for a specification; pin = {field: value} forces chosen fields (used to cycle through every class of form)"""
+    unit, tu = LATTICES[unit_i]
+    n = len(members)
+    pin = pin or {}
+    fm = {"tu": tu, "salt": rng.randrange(1000),
+          "mf": [rng.choice(RAW_TFORMS if k == 1 else TFORMS) if rng.random() < 0.7 else "f64" for k, _, _ in members],
+          "msf": [rng.choice(SFORMS) if rng.random() < 0.5 else "f64" for _ in range(n)],
+          "dd": [rng.choice(DDTYPES) for _ in range(n)],
+          "sf": rng.choice(SFORMS), "call": rng.choice(CALLS), "md": rng.choice(MDFORMS), "share": rng.choice(SHARES)}
+    for k_, v in pin.items():
+        if k_ in ("mf", "msf", "dd"):
+            if n:
+                j = rng.randrange(n)
+                if k_ != "mf" or members[j][0] != 1 or v in RAW_TFORMS:
+                    fm[k_][j] = v
+        else:
+            fm[k_] = v
+    return fm
+
+
+def form_specs(tier, seed):
+    """specifications handed over in every class of argument form (cycled deterministically so that the quick tier meets each class), the rest sampled"""
+    rng = random.Random(seed * 17 + 1201)
+    pool_t = TEMPL + TEMPL_F
+    out = []
+    N = 800 if tier == "quick" else 9000
+    pins = [("mf", f) for f in TFORMS] + [("msf", f) for f in SFORMS] + [("sf", f) for f in SFORMS] + [("dd", f) for f in DDTYPES] \
+        + [("call", f) for f in CALLS] + [("md", f) for f in MDFORMS] + [("share", f) for f in SHARES[1:]] + [("data", f) for f in ("odict", "tuple", "gen", "iter", "values")]
+    for c in range(N):
+        pk, pv = pins[c % len(pins)]
+        needs_whole = pv in INTF or pv in ("pyint", "f32", "scalar", "npscalar")
+        unit_i = rng.choice(WHOLE_LATTICES) if (needs_whole and rng.random() < 0.9) else rng.randrange(len(LATTICES))
+        unit, tu = LATTICES[unit_i]
+        o = rng.choice(OFFSETS if unit >= 10 ** 6 else OFFSETS[:4])   # 1e5 s away a float64 resolves 15 ps: microsecond-long supports would make the rate a rounding matter
+        if pv in ("u8", "u16", "u32", "u64") and rng.random() < 0.8:
+            o = 0
+        if pv == "u8" or pv == "f32":
+            unit_i = 3 if pv == "u8" else rng.choice([3, 4, 6])
+            unit, tu = LATTICES[unit_i]
+        off = off_ticks(o, unit)
+        n = rng.choice([0, 1, 2, 2, 3, 3, 4]) if c % 23 else 0
+        tm = [rng.randrange(len(pool_t)) for _ in range(n)]
+        if abs(off) >= 10 ** 12:     # no sub-microsecond features far from the origin (the rate of a 500 ns support would be a rounding matter)
+            tm = [i if not any(isinstance(v, tuple) for v in pool_t[i][2]) else 0 for i in tm]
+        if pk in ("mf", "msf") and pv in ("scalar", "npscalar") and n:
+            tm[0] = [i for i, x in enumerate(pool_t) if x[0] in ("P", "M")][1 if abs(off) >= 10 ** 12 else c % 2]      # one sample / one interval (M, P)
+        if pk == "dd" and n:
+            tm[0] = [i for i, x in enumerate(pool_t) if x[1] in (4, 5, 6, 7)][c % 5]
+        members = []
+        for i in tm:
+            _, kind, t, sp = pool_t[i]
+            members.append((kind, [lat(v, unit, off) for v in t], None if sp is None else lat_ep(sp, unit, off)))
+        sup = rng.choice(SUPS + [[(0, 12)], None, [(0, 3), (4, 7), (8, 11)]])
+        if pk == "sf" and sup is None:
+            sup = [(0, 12)] if pv in ("scalar", "npscalar") else rng.choice(SUPS[1:4])
+        if pk == "sf" and pv in ("scalar", "npscalar"):
+            sup = rng.choice([[(0, 12)], [(1, 5)]])
+        if pk == "sf" and pv in ("shuffled",):
+            sup = [(3, 5), (9, 11)]
+        islist = rng.random() < 0.25 or pk == "data" and pv != "odict"
+        if pk == "data" and pv == "odict":
+            islist = False
+        keypool = KEYS_F + KEYS if rng.random() < 0.7 else KEYS + KEYS2[:1]
+        order = list(range(len(keypool)))
+        rng.shuffle(order)
+        keys, seen = [], set()
+        for i in order:
+            if keypool[i][1][1] not in seen and len(keys) < n:
+                keys.append(keypool[i])
+                seen.add(keypool[i][1][1])
+        pin = {pk: pv}
+        if islist and pk != "data":
+            pin["data"] = rng.choice(["list", "tuple", "gen", "iter", "values"])
+        fm = rand_form(rng, members, unit_i, pin=pin)
+        out.append(("forms", Spec(keys, [rng.randrange(4) for _ in range(n)], members, None if sup is None else lat_ep(sup, unit, off), rng.random() < 0.3,
+                                  hastag=rng.random() < 0.8, islist=islist, form=fm)))
+    # keys that must be rejected, in other spellings
+    byname = {x[0]: x for x in pool_t}
+
+    def member_of(name):
+        _, kind, t, sp = byname[name]
+        return (kind, sc(t), None if sp is None else sci(sp))
+    for bad in BADKEYS_F:
+        for pos in (0, 1, 2):
+            ks = [KEYS_F[0], KEYS_F[5]]
+            ks.insert(pos, bad)
+            ms = [member_of("A"), member_of("B"), member_of("D")]
+            out.append(("badkeys", Spec(ks, [0, 1, 2], ms, None, False, hastag=False, form=rand_form(rng, ms, 0, pin={"data": "dict"}))))
+    for dup in DUPKEYS_F:
+        ms = [member_of("ABD"[j]) for j in range(len(dup))]
+        out.append(("badkeys", Spec(dup, list(range(len(dup))), ms, None, False, hastag=False, form=rand_form(rng, ms, 0, pin={"data": "dict"}))))
+    return out
+
+
+_SUPPLIED = {}
+
+
+def supplied(nap, kind, t, s):
+    """the member as supplied, built once in the canonical form (float64 seconds, Ts / Tsd): its own (timestamps, support) in ticks.
+    TsdFrame / TsdTensor members carry the timestamps and support of the Ts built from the same arguments"""
+    key = (CANON_KIND[kind], tuple(t), None if s is None else tuple(s))
+    if key not in _SUPPLIED:
+        o = mk_member(nap, key[0], t, s)
+        _SUPPLIED[key] = (tuple(C.to_ns(x) for x in (o if kind == 1 else o.t)), None if kind == 1 else ticks_iset(o.time_support))
+    return _SUPPLIED[key]
+
+
+def count_forms(res, spec):
+    u = spec.used
+    if not u:
+        return
+    fm = spec.form
+    res.count("form:time_units=" + fm["tu"])
+    res.count("form:call=" + u["call"])
+    res.count("form:data=" + u["data"])
+    if u["md"]:
+        res.count("form:metadata=" + u["md"])
+    if u["support"]:
+        res.count("form:support=" + u["support"])
+    if fm.get("share", "none") != "none":
+        res.count("form:share=" + fm["share"])
+    for (k, _, _), (tf, sf), dd in zip(spec.members, u["members"], fm["dd"]):
+        res.count("form:member_t=" + tf)
+        res.count("form:member_class=" + {0: "Ts", 1: "raw", 2: "Ts(default support)", 4: "Tsd", 5: "TsdFrame", 6: "TsdTensor", 7: "Tsd(default support)"}[k])
+        if sf:
+            res.count("form:member_support=" + sf)
+        if k in (4, 5, 6, 7):
+            res.count("form:member_data=" + dd)
+
+
 def check_construction(nap, res, spec, model_line, part):
     inp = spec.desc()
     mo = parse_state(model_line)
@@ -313,7 +776,12 @@ def check_construction(nap, res, spec, model_line, part):
     res.case((part, str(inp)), nontrivial=bool(nontrivial))
     res.count(part)
     res.count("n_members=%d" % len(spec.members))
-    if not states_agree(im, mo):
+    count_forms(res, spec)
+    if any(k in (2, 7) and t and t[0] == t[-1] for k, t, _ in spec.members):
+        # a series whose timestamps all coincide, built without a support: its default support is empty and its own rate is len / 0 (known quirk);
+        # the model does not cover that rate, the statement's clauses below are evaluated all the same
+        res.count("model_not_compared(coinciding timestamps, default support)")
+    elif not states_agree(im, mo):
         res.disagreements.append({"op": "TsGroup()", "input": inp, "impl": im if im is not None else repr(err), "model": model_line})
     if not valid:
         res.count("rejected_keys")
@@ -323,14 +791,14 @@ def check_construction(nap, res, spec, model_line, part):
             res.count("rejected_with_" + type(err).__name__)
         return None
     # member objects as supplied (their own timestamps / supports)
-    built = [mk_member(nap, k, t, s) for k, t, s in spec.members]
+    built = [supplied(nap, k, t, s) for k, t, s in spec.members]
     if spec.sup is None:
         msup = []
-        for o, (k, t, s) in zip(built, spec.members):
+        for (_, bsup), (k, t, s) in zip(built, spec.members):
             if k == 1:
                 msup.append([(t[0], t[-1])] if t and t[0] < t[-1] else [])
             else:
-                msup.append(ticks_iset(o.time_support))
+                msup.append(bsup)
         union_empty = not any(msup)
     else:
         union_empty = False
@@ -367,8 +835,7 @@ def check_construction(nap, res, spec, model_line, part):
                                    "impl": im["sup"], "expected": "%s = union of %s (differs at ns %s)" % (want, sups, [x / 2 for x in bad[:3]])})
     # 3. members restricted to the support the statement fixes (or untouched when the caller opts out); 4. rate
     for j, i in enumerate(order):
-        o = built[i]
-        src = [C.to_ns(x) for x in (o if spec.members[i][0] == 1 else o.t)]
+        src = list(built[i][0])
         if spec.members[i][0] == 1 and spec.sup is not None:
             src = [x for x in src if G.mem(x, spec.sup)]   # raw arrays become Ts(t, time_support = the supplied support)
         exp = src if spec.bypass else [x for x in src if G.mem(x, want)]
@@ -534,7 +1001,9 @@ def op_args(op):
     return ["9 %d %d %d %d" % (op[2], op[3], op[4], op[1]), "", ""]
 
 
-def apply_op(nap, g, op, aux):
+def apply_op(nap, g, op, aux, sty=None):
+    if sty is not None:
+        return apply_op_form(nap, g, op, aux, sty)
     k = op[0]
     if k == "keys":
         return g[list(op[1])]
@@ -558,7 +1027,141 @@ def apply_op(nap, g, op, aux):
     return a.merge(b, reset_index=bool(op[2]), reset_time_support=bool(op[3]), ignore_metadata=bool(op[4]))
 
 
-def step_oracle(res, op, before, after, aux_st, inp, within, aux_bypass=False):
+KEYLIST_FORMS = ("list", "ndarray_i64", "list_np_int", "list_float", "pd_index", "ndarray_i32", "ndarray_float", "ndarray_i8_or_i64")
+MASK_FORMS = ("ndarray_bool", "list_bool", "series_bool", "list_np_bool", "comparison")
+SCALAR_FORMS = ("float", "int_if_whole", "np_float64", "np_int64_if_whole", "np_float32_if_exact")
+
+
+def scalar_form(x, tu, f):
+    """the instant x (ticks) as a scalar of unit tu -> (value, name of the form used)"""
+    v = x / 1e9 if tu == "s" else x / DIV[tu]
+    whole = x % DIV[tu] == 0
+    name = SCALAR_FORMS[f % len(SCALAR_FORMS)]
+    if name == "int_if_whole" and whole:
+        return int(x // DIV[tu]), "int"
+    if name == "np_float64":
+        return np.float64(v), name
+    if name == "np_int64_if_whole" and whole:
+        return np.int64(x // DIV[tu]), "np_int64"
+    if name == "np_float32_if_exact" and float(np.float32(v)) == v:
+        return np.float32(v), "np_float32"
+    return float(v), "float"
+
+
+def mask_form(g, m, f, used):
+    name = MASK_FORMS[f % len(MASK_FORMS)] if len(m) else "ndarray_bool"     # an empty python list is an empty list of keys, not a mask
+    if name == "series_bool" and len(m) == len(g):
+        used.append("mask=" + name)
+        return pd.Series([bool(x) for x in m], index=list(g.keys()), dtype=bool)
+    if name == "list_bool":
+        used.append("mask=" + name)
+        return [bool(x) for x in m]
+    if name == "list_np_bool":
+        used.append("mask=" + name)
+        return [np.bool_(x) for x in m]
+    if name == "comparison":
+        used.append("mask=" + name)
+        return np.array(m, dtype=np.int64) > 0
+    used.append("mask=ndarray_bool")
+    return np.array(m, dtype=bool)
+
+
+def merge_form(nap, a, b, ri, rs, im, f, used):
+    kw = {"reset_index": bool(ri), "reset_time_support": bool(rs), "ignore_metadata": bool(im)}
+    c = f % 4
+    if c == 1:
+        used.append("merge=static merge_group(a, b)")
+        return nap.TsGroup.merge_group(a, b, **kw)
+    if c == 2:
+        used.append("merge=only non-default flags")
+        return a.merge(b, **{k_: v for k_, v in kw.items() if v})
+    if c == 3:
+        used.append("merge=merge_group(*[a, b]) numpy bool flags")
+        return nap.TsGroup.merge_group(*[a, b], **{k_: bool(np.bool_(v)) for k_, v in kw.items()})
+    used.append("merge=a.merge(b)")
+    return a.merge(b, **kw)
+
+
+def apply_op_form(nap, g, op, aux, sty):
+    """the same operation as apply_op, called through another argument form (container, dtype, unit, positional / keyword, defaults omitted, live object reused)"""
+    k, f = op[0], sty["f"]
+    used = sty.setdefault("used", [])
+    if k == "keys":
+        ks = [int(x) for x in op[1]]
+        name = KEYLIST_FORMS[f % len(KEYLIST_FORMS)]
+        used.append("keys=" + name)
+        small = all(-128 <= x < 128 for x in ks)
+        key = {"list": lambda: ks, "ndarray_i64": lambda: np.array(ks, dtype=np.int64), "list_np_int": lambda: [np.int64(x) if i % 2 else np.int32(x) for i, x in enumerate(ks)],
+               "list_float": lambda: [float(x) for x in ks], "pd_index": lambda: pd.Index(ks, dtype="int64"), "ndarray_i32": lambda: np.array(ks, dtype=np.int32),
+               "ndarray_float": lambda: np.array(ks, dtype=np.float64), "ndarray_i8_or_i64": lambda: np.array(ks, dtype=np.int8 if small else np.int64)}[name]()
+        return g[key]
+    if k == "mask":
+        return g[mask_form(g, op[1], f, used)]
+    if k == "thr":
+        c = f % 6
+        thr = [op[2], float(op[2]), np.int64(op[2]), np.float32(op[2]), op[2], np.float64(op[2])][c]
+        c2 = (f // 6) % 3
+        if op[1] == 0 and (f // 18) % 2:
+            c2 = 2          # the default operator is '>': leave it out
+        elif c2 == 2 and op[1] != 0:
+            c2 = 0
+        used += ["thr_type=" + type(thr).__name__, "thr_call=" + ["positional", "keyword", "op omitted ('>' is the default)"][c2]]
+        if c2 == 1:
+            return g.getby_threshold(key="tag", thr=thr, op=OPS[op[1]])
+        if c2 == 2:
+            return g.getby_threshold("tag", thr) if (f // 36) % 2 else g.getby_threshold(thr=thr, key="tag")
+        return g.getby_threshold("tag", thr, OPS[op[1]])
+    if k == "cat":
+        used.append("cat=" + ["positional", "keyword", "np.int64 class label"][f % 3])
+        d = g.getby_category(key="tag") if f % 3 == 1 else g.getby_category("tag")
+        return d[np.int64(op[1])] if f % 3 == 2 else d[op[1]]
+    if k == "int":
+        c = f % 5
+        bins = [lambda: np.array(op[1]), lambda: list(op[1]), lambda: tuple(op[1]), lambda: np.array(op[1], dtype=np.float64), lambda: np.array(op[1], dtype=np.int16)][c]()
+        used += ["bins=" + type(bins).__name__ + (" " + str(bins.dtype) if c in (0, 3, 4) else ""), "bins_call=" + ("keyword" if (f // 5) % 2 else "positional")]
+        r = g.getby_intervals(key="tag", bins=bins) if (f // 5) % 2 else g.getby_intervals("tag", bins)
+        return r[0][op[2]]
+    if k == "restrict":
+        tu = ("s", "ms", "us")[(f // 32) % 3]
+        ep, sf = sform_or(nap, op[1], tu, SFORMS[f % len(SFORMS)], f)
+        used += ["restrict_ep=" + sf, "restrict_ep_units=" + tu, "restrict_call=" + ("keyword" if (f // 128) % 2 else "positional")]
+        return g.restrict(ep=ep) if (f // 128) % 2 else g.restrict(ep)
+    if k == "get":
+        tu = ("s", "ms", "us")[f % 3]
+        a, fa = scalar_form(op[1], tu, f // 3)
+        b, fb = scalar_form(op[2], tu, f // 15)
+        c = (f // 75) % 3
+        used += ["get_bound=" + fa, "get_bound=" + fb, "get_units=" + tu, "get_call=" + ["positional", "keyword", "mixed"][c]]
+        sty["key"] = {"np_float32_bound": bool("np_float32" in (fa, fb))}
+        if c == 1:
+            return g.get(start=a, end=b, time_units=tu)
+        if c == 2:
+            return g.get(a, end=b, time_units=tu) if tu != "s" else g.get(a, b)
+        return g.get(a, b, tu)
+    if k == "rt":
+        c = f % 4
+        used.append("to_tsd=" + ["()", "(list of the keys)", "(ndarray of the keys)", "(Series of the keys)"][c])
+        keys = [int(x) for x in g.keys()]
+        if c == 1:
+            return g.to_tsd(keys).to_tsgroup()
+        if c == 2:
+            return g.to_tsd(np.array(keys, dtype=np.int64)).to_tsgroup()
+        if c == 3:
+            return g.to_tsd(pd.Series(keys, index=keys, dtype=np.int64)).to_tsgroup()
+        return g.to_tsd().to_tsgroup()
+    if k == "msplit":
+        if len(op[1]) == len(g) and all(op[1]) and all(op[2]) and (f // 4) % 2:
+            used.append("merge=the same live group twice")
+            sty["live"] = True
+            a = b = g         # selecting every key gives the group itself (its members as they are, with the supports they carry)
+        else:
+            a, b = g[mask_form(g, op[1], f // 8, used)], g[mask_form(g, op[2], f // 40, used)]
+        return merge_form(nap, a, b, op[3], op[4], op[5], f, used)
+    a, b = (g, aux) if op[1] else (aux, g)
+    return merge_form(nap, a, b, op[2], op[3], op[4], f, used)
+
+
+def step_oracle(res, op, before, after, aux_st, inp, within, aux_bypass=False, formkey=None, live=False):
     """the statement's preservation clauses, on implementation states only.  after is None when the operation raised.
     within = the current group does not descend (through get only) from a construction that opted out of the restriction; every clause is
     evaluated in both cases, and a member that changes only because such a group is re-restricted to its support is reported under
@@ -566,6 +1169,8 @@ def step_oracle(res, op, before, after, aux_st, inp, within, aux_bypass=False):
     k = op[0]
     kk = {"op": {"keys": "getitem_keys", "mask": "getitem_mask", "thr": "getby_threshold", "cat": "getby_category", "int": "getby_intervals",
                  "restrict": "restrict", "get": "get", "rt": "to_tsd_to_tsgroup", "msplit": "merge_group", "mwith": "merge_group"}[k]}
+    if formkey:
+        kk.update(formkey)     # the triggers of the argument form the operation was called through (one boolean each)
 
     def viol(part, what, impl=None, expected=None, **extra):
         res.violations.append({"key": dict(kk, part=part, **extra), "what": what, "input": inp, "impl": impl, "expected": expected})
@@ -665,6 +1270,8 @@ def step_oracle(res, op, before, after, aux_st, inp, within, aux_bypass=False):
         parts = [{"keys": [x for x, m in zip(bk, mk) if m], "sup": before["sup"], "hastag": before["hastag"]} for mk in (op[1], op[2])]
         for p in parts:   # a selection preserves the member and hands it the group's support (no support without a sample)
             p["mem"] = [(bmem[x][0], before["sup"] if bmem[x][0] else []) for x in p["keys"]]
+            if live:      # the group itself was passed for both operands: its members carry the supports they have
+                p["mem"] = [(bmem[x][0], bmem[x][1]) for x in p["keys"]]
         ri, rs, im = op[3], op[4], op[5]
     else:
         if aux_st is None:
@@ -754,8 +1361,48 @@ def history_cases(tier, seed):
     return out
 
 
-def run_history(nap, res, base, aux, ops, line):
+def same_state(a, b):
+    if a is None or b is None:
+        return False
+    if (a["keys"], a["sup"], a["hastag"], a["tags"], a["index"]) != (b["keys"], b["sup"], b["hastag"], b["tags"], b["index"]):
+        return False
+    return all(x[0] == y[0] and x[1] == y[1] and nan_eq([x[2], x[3]], [y[2], y[3]]) for x, y in zip(a["mem"], b["mem"]))
+
+
+def source_step(nap, g, kind):
+    """the group after an object history that is not one of this property's operations (their own contracts are other properties'): the result is only
+    used as the receiver of what follows"""
+    import os
+    import pickle
+    import tempfile
+    if kind == "pickle":
+        return pickle.loads(pickle.dumps(g))
+    if kind == "saveload":
+        d = tempfile.mkdtemp(prefix="c12_", dir=os.path.join(C.CACHE))
+        try:
+            f = os.path.join(d, "g.npz")
+            g.save(f)
+            return nap.load_file(f)
+        finally:
+            for x in os.listdir(d):
+                os.remove(os.path.join(d, x))
+            os.rmdir(d)
+    if kind == "value_from":
+        pts = sorted(set(float(x) for k in g.keys() for x in g[k].t) | set(float(x) for x in g.time_support.values.ravel()))
+        tsd = nap.Tsd(np.array(pts), np.arange(len(pts), dtype=np.float64))
+        return g.value_from(tsd, g.time_support)
+    if kind == "restrict_own_support":
+        return g.restrict(g.time_support)
+    raise ValueError(kind)
+
+
+def run_history(nap, res, base, aux, ops, line, styles=None, source=None):
     inp = {"base": base.desc(), "aux": aux.desc(), "ops": [list(o) for o in ops]}
+    if styles is not None:
+        inp["styles"] = [st_["f"] for st_ in styles]
+        styles = [{"f": st_["f"]} for st_ in styles]
+    if source is not None:
+        inp["source"] = source
     steps = line.split("#")
     try:
         g, _ = base.build(nap)
@@ -767,6 +1414,9 @@ def run_history(nap, res, base, aux, ops, line):
     except Exception:
         ga, aux_st = None, None
     res.count("histories")
+    if styles is not None:
+        res.count("histories_in_other_forms")
+        count_forms(res, base)
     if g is None:
         if not line.startswith("ERR"):
             res.disagreements.append({"op": "history/base", "input": inp, "impl": "ERR", "model": steps[0]})
@@ -774,26 +1424,57 @@ def run_history(nap, res, base, aux, ops, line):
         return
     st = impl_state(g)
     model_ok = states_agree(st, parse_state(steps[0]))
-    if not model_ok:   # the statement's clauses are still evaluated on the implementation's states below
+    if any(k in (2, 7) and t and t[0] == t[-1] for sp_ in (base, aux) for k, t, _ in sp_.members):
+        model_ok = False
+    elif not model_ok:   # the statement's clauses are still evaluated on the implementation's states below
         res.disagreements.append({"op": "history/base", "input": inp, "impl": st, "model": steps[0]})
     within = not base.bypass
+    if source is not None:
+        try:
+            gs = source_step(nap, g, source)
+            sts = impl_state(gs)
+        except Exception as ex:
+            gs, sts = None, None
+            res.count("source=%s raised %s (receiver kept as built)" % (source, type(ex).__name__))
+        if sts is not None:
+            if same_state(st, sts):
+                res.count("source=%s (same state)" % source)
+            else:
+                res.count("source=%s (state changed: model not compared)" % source)
+                model_ok = False
+            if source != "pickle":
+                within = True
+            iv = invariant_viol(sts, within)
+            if iv and source != "saveload":
+                res.violations.append({"key": dict({"op": source, "part": iv[0]}, **iv[2]), "what": iv[1], "input": inp, "impl": sts})
+            g, st = gs, sts
     nerr = 0
     for i, op in enumerate(ops):
         if op[0] == "mwith" and ga is None:
             break
+        sty = styles[i] if styles is not None else None
         try:
-            g2 = apply_op(nap, g, op, ga)
+            g2 = apply_op(nap, g, op, ga, sty)
             st2 = impl_state(g2)
             ex = None
         except Exception as e:
             g2, st2, ex = None, None, e
         mo = parse_state(steps[i + 1]) if i + 1 < len(steps) else None
         res.count("op_" + op[0])
+        if sty is not None:
+            for u in sty.get("used", []):
+                res.count("opform:" + u)
         if st2 is None:
             res.count("op_raised")
             res.count("raised_" + op[0])
             nerr += 1
-        step_oracle(res, op, st, st2, aux_st, dict(inp, step=i), within, aux.bypass)
+        nv = len(res.violations)
+        step_oracle(res, op, st, st2, aux_st, dict(inp, step=i), within, aux.bypass, sty.get("key") if sty else None, bool(sty and sty.get("live")))
+        if sty is not None and sty.get("live") and any(m[0] and m[1] != st["sup"] for m in st["mem"]):
+            res.count("model_not_compared(live group whose members carry their own supports)")
+            model_ok = False     # the model merges two SELECTIONS of the group (members handed the group's support)
+        if sty is not None and len(res.violations) > nv and not states_agree(st2, mo):
+            model_ok = False     # the step is already reported as a violation of the statement; the model (which satisfies it) necessarily differs
         if model_ok and not states_agree(st2, mo):
             res.disagreements.append({"op": "history/" + op[0], "input": dict(inp, step=i), "impl": st2 if st2 is not None else repr(ex), "model": steps[i + 1] if i + 1 < len(steps) else None})
             model_ok = False
@@ -809,6 +1490,74 @@ def run_history(nap, res, base, aux, ops, line):
         res.traces += 1
 
 
+KEYS_FB = [(np.int64(5), (0, 5)), (np.float64(2.0), (3, 2)), (np.int8(-3), (0, -3)), (" 7", (1, 7)), ("+10", (1, 10)), (np.int16(0), (0, 0)), (10 ** 6, (0, 10 ** 6))]
+KEYS_FA = [(True, (0, 1)), ("0009", (1, 9)), (np.float32(4.0), (3, 4)), (np.uint8(8), (0, 8)), (5, (0, 5)), ("-3", (1, -3)), ("1_2", (1, 12))]
+SOURCES = (None, None, None, "pickle", "saveload", "value_from", "restrict_own_support")
+
+
+def respec(sp, unit, off, rng, unit_i, far):
+    """a specification drawn on the lattice U moved to another lattice / offset and given a form; some Ts members become TsdFrame / TsdTensor"""
+    mem = []
+    for k, t, s_ in sp.members:
+        if far and any(x % U for x in t + [y for iv in (s_ or []) for y in iv]):
+            k, t, s_ = 0, sc([0, 2, 4]), sci([(0, 4)])      # no sub-microsecond features far from the origin
+        if k == 0 and rng.random() < 0.15:
+            k = rng.choice([5, 6])
+        mem.append((k, [relat(x, unit, off) for x in t], None if s_ is None else [(relat(a, unit, off), relat(b, unit, off)) for a, b in s_]))
+    sup = None if sp.sup is None else [(relat(a, unit, off), relat(b, unit, off)) for a, b in sp.sup]
+    fm = rand_form(rng, mem, unit_i)
+    if not sp.hastag or rng.random() < 0.5:
+        fm["md"] = "df"
+    return Spec(sp.keys, sp.tags, mem, sup, sp.bypass, sp.hastag, sp.islist, fm)
+
+
+def history_form_cases(tier, seed):
+    """histories as in history_cases, on other lattices / offsets, receivers built in other forms or coming out of an object history (pickle, save + load,
+    value_from, restrict to their own support), every operation called through a sampled argument form"""
+    rng = random.Random(seed * 19 + 1207)
+    out = []
+    for c in range(260 if tier == "quick" else 3000):
+        unit_i = rng.randrange(len(LATTICES))
+        unit, tu = LATTICES[unit_i]
+        o = rng.choice(OFFSETS if unit >= 10 ** 6 else OFFSETS[:4])
+        off = off_ticks(o, unit)
+        far = abs(off) >= 10 ** 12
+        sup = rng.choice([[(0, 12)], [(0, 12)], [(0, 12)], [(1, 5)], [(3, 5), (9, 11)], None, [(0, 4), (6, 12)]])
+        base = rand_spec(rng, KEYS if rng.random() < 0.4 else KEYS_FB, None if sup is None else sci(sup))
+        asup = sup if rng.random() < 0.6 else rng.choice(SUPS)
+        aux = rand_spec(rng, KEYS2 if rng.random() < 0.4 else KEYS_FA, None if asup is None else sci(asup), nmax=3, bypass_p=0.05)
+        if aux.sup is None and not any(t and (k in (1, 2) or any(G.mem(x, sp) for x in t)) for k, t, sp in aux.members):
+            aux.sup = sci([(0, 12)])
+        if base.hastag and rng.random() < 0.9:
+            aux.hastag = True
+        pool = [int(k) for k, _ in base.keys] * 4 + [int(k) for k, _ in KEYS] + [1, 9, 4, 8, 99] + list(range(4))
+        ops = []
+        sh, sha = Shadow(base), Shadow(aux)
+        nops = rng.randint(1, 5)
+        for j in range(nops):
+            if c % 11 == 0 and j == nops - 1:     # the same live group merged with itself
+                o_ = ("msplit", [1] * len(sh.keys), [1] * len(sh.keys), 1, int(rng.random() < 0.5), int(rng.random() < 0.5))
+            else:
+                o_ = rand_op(rng, sh, pool)
+            ops.append(o_)
+            sh.apply(o_, sha)
+        ops = [("restrict", [(relat(a, unit, off), relat(b, unit, off)) for a, b in o_[1]]) if o_[0] == "restrict"
+               else ("get", relat(o_[1], unit, off), relat(o_[2], unit, off)) if o_[0] == "get" else o_ for o_ in ops]
+        styles = [{"f": rng.randrange(10 ** 6) if not (c % 11 == 0 and j == nops - 1) else 4 + 8 * rng.randrange(1000)} for j in range(nops)]
+        out.append((respec(base, unit, off, rng, unit_i, far), respec(aux, unit, off, rng, unit_i, far), ops, styles, rng.choice(SOURCES)))
+    return out
+
+
+def run_history_forms(nap, res, tier, seed):
+    hs = history_form_cases(tier, seed)
+    hlines = ["\t".join(["hist"] + b.args() + a.args() + [x for o in ops for x in op_args(o)]) for b, a, ops, _, _ in hs]
+    hout = C.run_model(hlines, driver="driver_c12")
+    for n, (b, a, ops, styles, source) in enumerate(hs):
+        run_history(nap, res, b, a, ops, hout[n], styles, source)
+        if n % 163 == 5:
+            res.sample({"history_form": [list(o) for o in ops], "styles": [x["f"] for x in styles], "source": source, "base": b.desc()})
+
+
 # --------------------------------------------------------------------------------------
 # group-level count / value_from / trial_count = per member
 def nan_eq(a, b):
@@ -820,6 +1569,14 @@ def group_level(nap, res, tier, seed):
     rng = random.Random(seed * 11 + 5)
     cases, lines = [], []
     eps = [[(0, 12)], [(1, 5)], [(3, 5), (9, 11)], [(0, 4), (6, 12)], [(2, 6)]]
+
+    def add(sp, ep, b, src, mode, fx):
+        cases.append((sp, ep, b, src, mode, fx))
+        a = sp.args()
+        lines.append("\t".join(["gcount"] + a + [C.fmt_iset(ep), str(b)]))
+        lines.append("\t".join(["gcount_ep"] + a + [C.fmt_iset(ep)]))
+        lines.append("\t".join(["gtrial"] + a + [C.fmt_iset(ep), str(b)]))
+        lines.append("\t".join(["gvf"] + a + [str(mode), C.fmt_ints(src), C.fmt_iset(ep)]))
     for c in range(120 if tier == "quick" else 1200):
         sup = rng.choice([[(0, 12)], [(0, 12)], [(1, 9)], None])
         sp = rand_spec(rng, KEYS, None if sup is None else sci(sup), bypass_p=0.0)
@@ -828,22 +1585,187 @@ def group_level(nap, res, tier, seed):
         b = rng.choice([2 * U, 4 * U, 6 * U])
         src = sorted(rng.sample(range(0, 13), rng.randint(1, 5)))
         mode = rng.randrange(3)
-        cases.append((sp, ep, b, sc(src), mode))
-        a = sp.args()
-        lines.append("\t".join(["gcount"] + a + [C.fmt_iset(ep), str(b)]))
-        lines.append("\t".join(["gcount_ep"] + a + [C.fmt_iset(ep)]))
-        lines.append("\t".join(["gtrial"] + a + [C.fmt_iset(ep), str(b)]))
-        lines.append("\t".join(["gvf"] + a + [str(mode), C.fmt_ints(sc(src)), C.fmt_iset(ep)]))
+        add(sp, ep, b, sc(src), mode, {"forms": seed * 29 + c})
+    # receivers in other forms: other lattices / units / offsets, every class of member, built through every form, empty groups, groups of empty members;
+    # the model (integer ticks) is compared on the dyadic lattice only (on decimal lattices a bin edge is a rounded float: DESIGN.md section 2)
+    rng = random.Random(seed * 31 + 1213)
+    for c in range(56 if tier == "quick" else 800):
+        unit_i = rng.choice([0, 0, 1, 2, 3, 4, 5, 6, 7, 8, 9, 11, 12])
+        kind = c % 8
+        if kind == 2:
+            unit_i = 11 + c % 2      # bins of 200 / 400 / 600 ms handed over as np.float32 (exact) numbers of ms / us
+        unit, tu = LATTICES[unit_i]
+        o = rng.choice(OFFSETS if unit >= 10 ** 6 else OFFSETS[:4])
+        off = off_ticks(o, unit)
+        sup = rng.choice([[(0, 12)], [(0, 12)], [(1, 9)], None])
+        sp = rand_spec(rng, KEYS if rng.random() < 0.5 else KEYS_FB, None if sup is None else sci(sup), bypass_p=0.0)
+        if kind == 0:       # an empty group
+            sp = Spec([], [], [], sci(sup or [(0, 12)]), False, hastag=False)
+        elif kind == 1:     # only members without a sample
+            sp.members = [(0, [], sci([(0, 4)])) for _ in sp.members]
+            sp.sup = sci(sup or [(0, 12)])
+        spf = respec(sp, unit, off, rng, unit_i, abs(off) >= 10 ** 12)
+        rl = lambda x: relat(x, unit, off)
+        ep = [(rl(a), rl(b_)) for a, b_ in sci(rng.choice(eps))]
+        b = rng.choice([2, 4, 6]) * unit
+        src = [rl(x) for x in sc(sorted(rng.sample(range(0, 13), rng.randint(1, 5))))]
+        add(spf, ep, b, src, rng.randrange(3), {"forms": seed * 37 + c, "model": unit == U, "tu": tu, "vf_sup": [(rl(-U), rl(14 * U))], "f32_bin": tu if kind == 2 else None})
     out = C.run_model(lines, driver="driver_c12")
-    for n, (sp, ep, b, src, mode) in enumerate(cases):
+    for n, (sp, ep, b, src, mode, fx) in enumerate(cases):
         try:
-            _group_level_case(nap, res, out, n, sp, ep, b, src, mode)
+            _group_level_case(nap, res, out, n, sp, ep, b, src, mode, fx)
         except Exception as ex:
             res.violations.append({"key": {"op": "group_level", "part": "exception"}, "what": "group-level count / trial_count / value_from raised %s" % repr(ex),
                                    "input": dict(sp.desc(), ep=ep, bin=b, source=src)})
 
 
-def _group_level_case(nap, res, out, n, sp, ep, b, src, mode):
+def as_ts(nap, m):
+    """trial_count is a method of Ts only: the per-member reference of a Tsd / TsdFrame / TsdTensor member is the Ts of its timestamps on its support"""
+    return m if type(m) is nap.Ts else nap.Ts(m.t, time_support=m.time_support)
+
+
+COUNT_DTYPES = (np.int32, "int16", np.float32, np.uint8, np.float64, np.dtype("int64"), "uint16", np.int8)
+VF_SOURCES = ("Tsd", "Tsd", "TsdFrame", "TsdFrame(labels)", "TsdTensor")
+
+
+def group_level_forms(nap, res, g, keys, inp, ep, b, src, ms, vsup, Cn, Ce, C0, Tc, V, rng, f32_bin=None):
+    """count / trial_count / value_from called through other argument forms (units, scalar types, interval-set forms, positional / keyword, defaults, dtype,
+    padding, source class and data dtype): the result must be the one of the plain call (same instants, same result) and equal the members' own"""
+    def viol(op, part, what, impl=None, expected=None, **extra):
+        res.violations.append({"key": dict({"op": op, "part": part, "form": True}, **extra), "what": what, "input": dict(inp, form_call=desc), "impl": impl, "expected": expected})
+    # ---- count
+    tu = rng.choice(["s", "ms", "us"])
+    bv, bf = scalar_form(b, tu, rng.choice([0, 1, 2]))     # float / int / np.float64 (the documented types: isinstance float or int)
+    epf, sf = sform_or(nap, ep, rng.choice(["s", "ms", "us"]), rng.choice(SFORMS), rng.randrange(100))
+    dt = rng.choice(COUNT_DTYPES + (None, None))
+    call = rng.randrange(4)
+    desc = {"count": [bf, tu, sf, str(dt), ["positional", "keyword", "mixed", "ep omitted"][call]]}
+    for x in ("count_bin=" + bf, "count_units=" + tu, "ep=" + sf, "count_dtype=" + str(dt if dt is None else np.dtype(dt)), "count_call=" + desc["count"][4]):
+        res.count("glform:" + x)
+    want_dt = np.dtype(np.int64) if dt is None else np.dtype(dt)
+    ref = C0 if call == 3 else Cn
+    if call == 0:
+        Cf = g.count(bv, epf, tu, dt)
+        pers = [g[k].count(bv, epf, tu, dt) for k in keys]
+    elif call == 1:
+        Cf = g.count(dtype=dt, time_units=tu, ep=epf, bin_size=bv)
+        pers = [g[k].count(dtype=dt, time_units=tu, ep=epf, bin_size=bv) for k in keys]
+    elif call == 2:
+        Cf = g.count(bv, epf, time_units=tu) if dt is None else g.count(bv, epf, dtype=dt, time_units=tu)
+        pers = [g[k].count(bv, epf, time_units=tu) if dt is None else g[k].count(bv, epf, dtype=dt, time_units=tu) for k in keys]
+    else:
+        Cf = g.count(bv, time_units=tu, dtype=dt)
+        pers = [g[k].count(bv, g.time_support, tu, dt) for k in keys]
+    if [int(c_) for c_ in Cf.columns] != keys or not np.array_equal(Cf.t, ref.t) or not np.array_equal(np.asarray(Cf.values, dtype=np.float64), np.asarray(ref.values, dtype=np.float64)) \
+            or ticks_iset(Cf.time_support) != ticks_iset(ref.time_support):
+        viol("count", "binned", "count called through another form differs from the plain call on the same instants", np.asarray(Cf.values).tolist(), np.asarray(ref.values).tolist(),
+             units=tu, dtype_given=dt is not None)
+    if len(keys) and Cf.values.dtype != want_dt:
+        viol("count", "dtype", "count(dtype=%s) returned %s" % (dt, Cf.values.dtype), str(Cf.values.dtype), str(want_dt))
+    for i, (k, per) in enumerate(zip(keys, pers)):
+        if not (np.array_equal(per.t, Cf.t) and np.array_equal(np.asarray(per.values).ravel(), Cf.values[:, i]) and np.asarray(per.values).dtype == Cf.values.dtype):
+            viol("count", "binned", "group count column %d differs from the member's count (same arguments)" % k, Cf.values[:, i].tolist(), np.asarray(per.values).ravel().tolist(),
+                 units=tu, dtype_given=dt is not None)
+    # count per epoch, spelled in the other ways
+    c2 = rng.randrange(3)
+    Cg = [lambda: g.count(None, epf), lambda: g.count(ep=epf, dtype=dt), lambda: g.count(bin_size=None, ep=epf, time_units=tu)][c2]()
+    res.count("glform:count_ep_call=" + ["(None, ep)", "(ep=, dtype=)", "(bin_size=None, ep=, time_units=)"][c2])
+    if [int(c_) for c_ in Cg.columns] != keys or not np.array_equal(Cg.t, Ce.t) or not np.array_equal(np.asarray(Cg.values, dtype=np.float64), np.asarray(Ce.values, dtype=np.float64)):
+        viol("count", "per_epoch", "count(ep) called through another form differs from the plain call", np.asarray(Cg.values).tolist(), np.asarray(Ce.values).tolist())
+    # no argument at all: one count per interval of the group's support
+    Cz = g.count()
+    for i, k in enumerate(keys):
+        per = g[k].count(ep=g.time_support)
+        if not np.array_equal(np.asarray(per.values).ravel(), Cz.values[:, i]):
+            viol("count", "no_argument", "group count() column %d differs from the member's count per interval of the support" % k, Cz.values[:, i].tolist(), np.asarray(per.values).ravel().tolist())
+    # ---- trial_count
+    tu = rng.choice(["s", "ms", "us"])
+    bv, bf = scalar_form(b, tu, rng.randrange(5))
+    if f32_bin:
+        tu = f32_bin
+        bv, bf = scalar_form(b, tu, 4)
+    align = rng.choice(["start", "end"])
+    pad = rng.choice([np.nan, np.nan, 0, -1, 0.5, np.float32(2)])
+    call = rng.randrange(3)
+    desc = {"trial_count": [bf, tu, sf, align, repr(pad), ["positional", "keyword", "defaults omitted"][call]]}
+    for x in ("trial_bin=" + bf, "trial_units=" + tu, "trial_pad=" + repr(pad), "trial_call=" + desc["trial_count"][5], "trial_align=" + align):
+        res.count("glform:" + x)
+    tk_ = {"np_float32_bin": bf == "np_float32"}
+    pad_default = isinstance(pad, float) and math.isnan(pad)
+    try:
+        if call == 0:
+            Tf = g.trial_count(epf, bv, align, pad, tu)
+            pers = [as_ts(nap, g[k]).trial_count(epf, bv, align, pad, tu) for k in keys]
+        elif call == 1:
+            Tf = g.trial_count(time_unit=tu, padding_value=pad, align=align, bin_size=bv, ep=epf)
+            pers = [as_ts(nap, g[k]).trial_count(time_unit=tu, padding_value=pad, align=align, bin_size=bv, ep=epf) for k in keys]
+        else:
+            kw = {}
+            if align != "start":
+                kw["align"] = align
+            if not pad_default:
+                kw["padding_value"] = pad
+            if tu != "s":
+                kw["time_unit"] = tu
+            Tf = g.trial_count(epf, bv, **kw)
+            pers = [as_ts(nap, g[k]).trial_count(epf, bv, **kw) for k in keys]
+    except Exception as ex:
+        viol("trial_count", "exception", "trial_count raised " + repr(ex), **tk_)
+        Tf = None
+    if Tf is not None and align in Tc:
+        want = np.where(np.isnan(Tc[align]), pad, Tc[align]) if not pad_default else Tc[align]
+        if not nan_eq(Tf, want):
+            viol("trial_count", "tensor", "trial_count called through another form differs from the plain call on the same instants", np.asarray(Tf).tolist(), np.asarray(want).tolist(), **tk_)
+        for i, (k, per) in enumerate(zip(keys, pers)):
+            if not nan_eq(Tf[i], per):
+                viol("trial_count", "member", "group trial_count[%d] differs from the member's (same arguments)" % k, np.asarray(Tf[i]).tolist(), np.asarray(per).tolist(), **tk_)
+    # ---- value_from
+    cls = rng.choice(VF_SOURCES)
+    dd = rng.choice(DDTYPES)
+    tf = rng.choice([f_ for f_ in TFORMS if f_ not in ("series", "scalar", "npscalar", "unsorted")])
+    tu = rng.choice(["s", "ms", "us"])
+    r = tform(nap, src, tu, tf, rng.randrange(100))
+    if r is None:
+        r, tf = tform(nap, src, tu, "f64"), "f64"
+    tv, tue = r
+    vs, vsf = sform_or(nap, vsup, tu, rng.choice(SFORMS), rng.randrange(100))
+    n = len(src)
+    if cls == "Tsd":
+        data = nap.Tsd(tv, ddata(n, dd), tue, vs)
+    elif cls.startswith("TsdFrame"):
+        data = nap.TsdFrame(tv, ddata(n, dd, (2,)), tue, vs, columns=["b", "a"] if cls.endswith(")") and rng.random() < 0.5 else [7, 3] if cls.endswith(")") else None)
+    else:
+        data = nap.TsdTensor(tv, ddata(n, dd, (2, 1)), tue, vs)
+    call = rng.randrange(4)
+    desc = {"value_from": [cls, dd, tf, tu, vsf, sf, ["positional", "keyword", "mode omitted when closest", "ep omitted"][call]]}
+    for x in ("vf_source=" + cls, "vf_data=" + dd, "vf_source_t=" + tf, "vf_call=" + desc["value_from"][6]):
+        res.count("glform:" + x)
+    if call == 0:
+        Vf = g.value_from(data, epf, ms)
+    elif call == 1:
+        Vf = g.value_from(tsd=data, mode=ms, ep=epf)
+    elif call == 2:
+        Vf = g.value_from(data, epf) if ms == "closest" else g.value_from(data, ep=epf, mode=ms)
+    else:
+        Vf = g.value_from(data, mode=ms)
+    exp_sup = ep if call != 3 else vsup
+    if [int(k) for k in Vf.keys()] != keys or ticks_iset(Vf.time_support) != exp_sup:
+        viol("value_from", "keys_support", "group value_from changed the keys or did not install ep (the source's support when ep is omitted)",
+             ([int(k) for k in Vf.keys()], ticks_iset(Vf.time_support)), (keys, exp_sup))
+        return
+    for k in keys:
+        per = g[k].value_from(data, epf if call != 3 else None, ms)
+        pv, gv = np.asarray(per.values), np.asarray(Vf[k].values)
+        if not (np.array_equal(per.t, Vf[k].t) and pv.shape == gv.shape and pv.dtype == gv.dtype and type(per) is type(Vf[k]) and nan_eq(pv.ravel(), gv.ravel())):
+            viol("value_from", "member", "group value_from[%d] differs from the member's (same arguments)" % k, gv.tolist(), pv.tolist(), source=cls)
+        if call != 3 and not np.array_equal(Vf[k].t, V[k].t):
+            viol("value_from", "timestamps", "value_from from a source of another class / dtype keeps other timestamps than from the plain Tsd on the same instants",
+                 [C.to_ns(x) for x in Vf[k].t], [C.to_ns(x) for x in V[k].t], source=cls)
+
+
+def _group_level_case(nap, res, out, n, sp, ep, b, src, mode, fx=None):
+    fx = fx or {}
+    cm = fx.get("model", True)     # is the model compared (dyadic lattice)
     if True:
         inp = dict(sp.desc(), ep=ep, bin=b, source=src, mode=["before", "closest", "after"][mode])
         try:
@@ -852,6 +1774,12 @@ def _group_level_case(nap, res, out, n, sp, ep, b, src, mode):
             return
         res.case(("group_level", str(inp)), nontrivial=len(g) >= 2)
         res.count("group_level")
+        if sp.form is not None:
+            res.count("group_level_receiver_in_other_form")
+            res.count("group_level:n_members=%d" % len(g))
+            if not cm:
+                res.count("group_level:model_not_compared(decimal lattice)")
+            count_forms(res, sp)
         keys = [int(k) for k in g.keys()]
         epo = mk_iset(nap, ep)
         kk = {"op": "count"}
@@ -866,7 +1794,7 @@ def _group_level_case(nap, res, out, n, sp, ep, b, src, mode):
                 res.violations.append({"key": dict(kk, part="binned"), "what": "group count column %d differs from the member's count" % k, "input": inp,
                                        "impl": Cn.values[:, i].tolist(), "expected": np.asarray(per.values).ravel().tolist()})
             f = cols_m[i].split("|")
-            if int(f[0]) != k or [int(v) for v in f[2].split()] != [int(v) for v in Cn.values[:, i]] or [int(v) for v in f[1].split()] != [2 * C.to_ns(t) for t in Cn.t]:
+            if cm and (int(f[0]) != k or [int(v) for v in f[2].split()] != [int(v) for v in Cn.values[:, i]] or [int(v) for v in f[1].split()] != [2 * C.to_ns(t) for t in Cn.t]):
                 res.disagreements.append({"op": "group count", "input": inp, "impl": Cn.values[:, i].tolist(), "model": cols_m[i]})
         # count per epoch
         Ce = g.count(ep=epo)
@@ -876,7 +1804,7 @@ def _group_level_case(nap, res, out, n, sp, ep, b, src, mode):
             if not np.array_equal(np.asarray(per.values).ravel(), Ce.values[:, i]):
                 res.violations.append({"key": dict(kk, part="per_epoch"), "what": "group count(ep) column %d differs from the member's" % k, "input": inp})
             f = cols_m[i].split("|")
-            if int(f[0]) != k or [int(v) for v in f[1].split()] != [int(v) for v in Ce.values[:, i]]:
+            if cm and (int(f[0]) != k or [int(v) for v in f[1].split()] != [int(v) for v in Ce.values[:, i]]):
                 res.disagreements.append({"op": "group count(ep)", "input": inp, "impl": Ce.values[:, i].tolist(), "model": cols_m[i]})
         # count on the group's own support (ep omitted)
         C0 = g.count(b / 1e9)
@@ -885,14 +1813,16 @@ def _group_level_case(nap, res, out, n, sp, ep, b, src, mode):
             if not np.array_equal(np.asarray(per.values).ravel(), C0.values[:, i]):
                 res.violations.append({"key": dict(kk, part="default_ep"), "what": "group count() column %d differs from the member's count on the group support" % k, "input": inp})
         # trial_count
+        Tc = {}
         for align in ("start", "end"):
             try:
                 T = g.trial_count(epo, b / 1e9, align=align)
             except Exception as ex:
                 res.violations.append({"key": {"op": "trial_count", "part": "exception", "align": align}, "what": "group trial_count raised " + type(ex).__name__, "input": inp})
                 continue
+            Tc[align] = T
             for i, k in enumerate(keys):
-                per = g[k].trial_count(epo, b / 1e9, align=align)
+                per = as_ts(nap, g[k]).trial_count(epo, b / 1e9, align=align)
                 if not nan_eq(T[i], per):
                     res.violations.append({"key": {"op": "trial_count", "align": align}, "what": "group trial_count[%d] differs from the member's" % k, "input": inp,
                                            "impl": np.asarray(T[i]).tolist(), "expected": np.asarray(per).tolist()})
@@ -902,10 +1832,11 @@ def _group_level_case(nap, res, out, n, sp, ep, b, src, mode):
                     f = blocks[i].split("|")
                     rows = [[int(v) for v in r.split()] for r in f[1:]]
                     got = [[int(v) for v in row if not np.isnan(v)] for row in T[i]]
-                    if int(f[0]) != k or got != rows:
+                    if cm and (int(f[0]) != k or got != rows):
                         res.disagreements.append({"op": "group trial_count", "input": inp, "impl": got, "model": rows})
         # value_from
-        tsd = nap.Tsd(G.arr(src), np.arange(len(src)) + 100.0, time_support=mk_iset(nap, [(-U, 14 * U)]))
+        vsup = fx.get("vf_sup", [(-U, 14 * U)])
+        tsd = nap.Tsd(G.arr(src), np.arange(len(src)) + 100.0, time_support=mk_iset(nap, vsup))
         ms = ["before", "closest", "after"][mode]
         V0 = g.value_from(tsd, mode=ms)   # ep omitted: the group's own support, as for each member
         for k in keys:
@@ -928,8 +1859,10 @@ def _group_level_case(nap, res, out, n, sp, ep, b, src, mode):
             mt = [int(v) for v in f[1].split()]
             mv = [None if v == "nan" else src.index(srcr[int(v)]) + 100 for v in f[2].split()]
             gv = [None if np.isnan(v) else int(v) for v in V[k].values]
-            if int(f[0]) != k or mt != [C.to_ns(t) for t in V[k].t] or mv != gv:
+            if cm and (int(f[0]) != k or mt != [C.to_ns(t) for t in V[k].t] or mv != gv):
                 res.disagreements.append({"op": "group value_from", "input": inp, "impl": gv, "model": blocks[i]})
+        if "forms" in fx:
+            group_level_forms(nap, res, g, keys, inp, ep, b, src, ms, vsup, Cn, Ce, C0, Tc, V, random.Random(fx["forms"]), fx.get("f32_bin"))
 
 
 # --------------------------------------------------------------------------------------
@@ -951,21 +1884,61 @@ def merge_nary(nap, res, tier, seed):
             sp = rand_spec(rng, pools[i], sci(s_i), nmax=2, bypass_p=0.0, hastag_p=0.95)
             specs.append(sp)
         ri, rs, im = int(rng.random() < 0.25), int(rng.random() < 0.3), int(rng.random() < 0.55)
-        cases.append((specs, ri, rs, im))
+        cases.append((specs, ri, rs, im, 0))
+        lines.append("\t".join(["merge", "%d %d %d %d" % (ri, rs, im, n)] + [x for sp in specs for x in sp.args()]))
+    # the same in other forms: groups built on other lattices / units / offsets through other argument forms, an empty group among the operands,
+    # the same live group passed twice, the bound method with several operands, flags given only when they differ from the defaults
+    rng = random.Random(seed * 41 + 1217)
+    for c in range(64 if tier == "quick" else 900):
+        n = rng.choice([2, 3, 3, 4])
+        unit_i = rng.randrange(len(LATTICES))
+        unit, tu = LATTICES[unit_i]
+        off = off_ticks(rng.choice(OFFSETS if unit >= 10 ** 6 else OFFSETS[:4]), unit)
+        sup = rng.choice([[(0, 12)], [(1, 5)], [(3, 5), (9, 11)]])
+        pools = [KEYS[:3], KEYS_FA[:4], KEYS3, KEYS_FB[3:]]
+        rng.shuffle(pools)
+        specs = []
+        for i in range(n):
+            s_i = sup if rng.random() < 0.85 else rng.choice(SUPS[1:])
+            sp = rand_spec(rng, pools[i], sci(s_i), nmax=2, bypass_p=0.0, hastag_p=0.95)
+            if c % 9 == 4 and i == 1:
+                sp = Spec([], [], [], sci(s_i), False, hastag=False)       # an empty group
+            specs.append(respec(sp, unit, off, rng, unit_i, abs(off) >= 10 ** 12))
+        ri, rs, im = int(rng.random() < 0.25), int(rng.random() < 0.3), int(rng.random() < 0.55)
+        cf = 1 + c % 4
+        if cf == 4:      # the same live group twice
+            specs.append(specs[0])
+            ri, n = 1, n + 1
+        cases.append((specs, ri, rs, im, cf))
         lines.append("\t".join(["merge", "%d %d %d %d" % (ri, rs, im, n)] + [x for sp in specs for x in sp.args()]))
     out = C.run_model(lines, driver="driver_c12")
-    for (specs, ri, rs, im), line in zip(cases, out):
+    for (specs, ri, rs, im, cf), line in zip(cases, out):
         inp = {"groups": [sp.desc() for sp in specs], "reset_index": ri, "reset_time_support": rs, "ignore_metadata": im}
+        if cf:
+            inp["call_form"] = cf
         try:
-            gs = [sp.build(nap)[0] for sp in specs]
+            built = {}
+            for sp in specs:
+                if id(sp) not in built:
+                    built[id(sp)] = sp.build(nap)[0]
+            gs = [built[id(sp)] for sp in specs]
             sts = [impl_state(g) for g in gs]
         except Exception as e:
             res.violations.append({"key": {"op": "init", "part": "exception"}, "what": "TsGroup() raised %s on valid input" % type(e).__name__, "input": inp, "impl": repr(e)})
             continue
         res.case(("merge_nary", str(inp)), nontrivial=True)
         res.count("merge_nary")
+        if cf:
+            res.count("merge_nary_form=" + ["", "bound g.merge(g2, g3, ..)", "only non-default flags", "static, groups in other forms", "the same live group twice"][cf])
+            if any(not sp.members for sp in specs):
+                res.count("merge_nary_with_an_empty_group")
         try:
-            r = nap.TsGroup.merge_group(*gs, reset_index=bool(ri), reset_time_support=bool(rs), ignore_metadata=bool(im))
+            if cf == 1:
+                r = gs[0].merge(*gs[1:], reset_index=bool(ri), reset_time_support=bool(rs), ignore_metadata=bool(im))
+            elif cf == 2:
+                r = gs[0].merge(*gs[1:], **{k_: True for k_, v_ in (("reset_index", ri), ("reset_time_support", rs), ("ignore_metadata", im)) if v_})
+            else:
+                r = nap.TsGroup.merge_group(*gs, reset_index=bool(ri), reset_time_support=bool(rs), ignore_metadata=bool(im))
             st = impl_state(r)
             ex = None
         except Exception as e:
@@ -1029,6 +2002,25 @@ def run(res, tier, seed):
                 "n-ary merges (3-4 groups): keys, exact union when the support is reset, every member unchanged. "
                 "Group-level count / value_from (with and without ep) / trial_count against the members' own. non-trivial = keys arrive unsorted (a), >= 2 members (b), >= 2 successful steps (histories)"
                 % ("2 (+ samples of 3 and 4)" if tier == "quick" else "3 (+ samples of 4)"))
+    res.rule += (
+        " ARGUMENT FORMS (the oracle is unchanged: it works from the ticks of the specification, so the same instants must give the same result). "
+        "[axis 1 data dtype] members that are Tsd / TsdFrame / TsdTensor with float64, float32, int64..int8, uint8..uint64, bool data, data holding NaN, +inf / -inf, constant and zero data; "
+        "value_from sources of the same dtypes and of class Tsd / TsdFrame (default, string and unsorted integer column labels) / TsdTensor. "
+        "[axis 2 time forms] every member's timestamps and every support / epoch given as float64 ndarray, list, tuple, pandas Series / Index, int64 / int32 / int16 / uint8..uint64 / float32 arrays, "
+        "lists of Python ints, unsorted arrays, views and strided views of a larger buffer, another object's TsIndex (x.index) and x.t, Python / numpy scalars for one sample or one interval; "
+        "interval sets also as an array or list of pairs, a DataFrame, a copy of an IntervalSet, with metadata, with the intervals given in reverse order; get bounds as float, int, np.float64, np.int64, np.float32; "
+        "key lists as list of int / np.int / float, int64 / int32 / int8 / float arrays, pandas Index; masks as bool ndarray, list of bool / np.bool_, bool Series, a comparison result; thresholds as int / float / np scalars; bins as ndarray / list / tuple. "
+        "[axis 3 call forms] TsGroup(), Ts(), Tsd(), IntervalSet(), get, restrict, getby_*, merge / merge_group, count, trial_count, value_from called positionally, by keyword, mixed, with explicit None / default values and with the defaults omitted; "
+        "flags combined (bypass_check x time_units x time_support x metadata form; reset_index x reset_time_support x ignore_metadata; dtype x time_units x ep; align x padding_value x time_unit); metadata as DataFrame / dict of list / dict of int16 array / dict of floats / deprecated keyword arguments. "
+        "[axis 4 units] every time argument in s / ms / us (constructor time_units for raw arrays, Ts / Tsd / IntervalSet time_units, get time_units, count time_units, trial_count time_unit). "
+        "[axis 5 placement] lattices of 2^-9 s, 1 s, 1 ms, 1 us shifted by 0, -6 and -13 steps (straddling 0, all negative), +1e5 s and -1e3 s (only on lattices of >= 1 ms, without the sub-microsecond templates); samples on every interval end. "
+        "[axis 6 degenerate] the empty group (with a support; without one the documented RuntimeError), groups of empty members, empty raw array / empty Ts, one sample, all timestamps equal with an explicit support and (on purpose) with the empty default support, "
+        "three-interval supports with a sample on every end; keys np.int64 / np.int8 / np.uint8 / np.float64 / np.float32 / True / ' 7' / '+10' / '0012' / '1_1' / 10**6 / -1e3; rejected keys '1e1', '7.0', '', nan, inf, a tuple, '0x10', -0.5 and equal values in other spellings. "
+        "[axis 7 classes] data as dict / OrderedDict / list / tuple / generator / iterator / dict.values(); members Ts, Tsd, TsdFrame, TsdTensor, raw arrays; IntervalSet with and without metadata; n-ary merges with an empty group among the operands. "
+        "[axis 8 histories] receivers that come out of pickle, save + load, value_from, restrict to their own support; the same live Ts under two keys, one IntervalSet object shared by the members and the group, "
+        "the same live group merged with itself (reset_index) two-ary and n-ary, raw members that are views of other buffers; groups built with bypass_check=True. "
+        "Every sampled class of form is counted in the distribution under form:, opform:, glform:, merge_nary_form=, source=. The model is compared on every form except: series with coinciding timestamps and a default (empty) support, "
+        "a live bypass_check group merged with itself, receivers whose state changed in an object history, group-level calls on decimal lattices.")
     res.exhaustive = True
     specs = construction_specs(tier, rng)
     lines = ["\t".join(["mk"] + sp.args()) for _, sp in specs]
@@ -1037,6 +2029,12 @@ def run(res, tier, seed):
         check_construction(nap, res, sp, out[n], part)
         if n % 997 == 0:
             res.sample({"construct": sp.desc(), "model_state": out[n]})
+    fspecs = form_specs(tier, seed)
+    fout = C.run_model(["\t".join(["mk"] + sp.args()) for _, sp in fspecs], driver="driver_c12")
+    for n, (part, sp) in enumerate(fspecs):
+        check_construction(nap, res, sp, fout[n], part)
+        if n % 449 == 7:
+            res.sample({"construct_form": sp.desc(), "forms_used": sp.used, "model_state": fout[n]})
     hs = history_cases(tier, seed)
     hlines = ["\t".join(["hist"] + b.args() + a.args() + [x for o in ops for x in op_args(o)]) for b, a, ops in hs]
     hout = C.run_model(hlines, driver="driver_c12")
@@ -1044,6 +2042,7 @@ def run(res, tier, seed):
         run_history(nap, res, b, a, ops, hout[n])
         if n % 331 == 0:
             res.sample({"history": [list(o) for o in ops], "base": b.desc(), "trace": hout[n][:300]})
+    run_history_forms(nap, res, tier, seed)
     merge_nary(nap, res, tier, seed)
     group_level(nap, res, tier, seed)
 
@@ -1065,7 +2064,7 @@ def replay(payload):
     def spec_of(d):
         keys = []
         for r in d["keys"]:
-            k = eval(r, {"__builtins__": {}}, {})
+            k = eval(r, {"__builtins__": {}}, {"np": np, "nan": float("nan"), "inf": float("inf")})
             code = (2, 0) if not isinstance(k, (int, float, str)) else None
             if code is None:
                 try:
@@ -1074,16 +2073,19 @@ def replay(payload):
                     code = (2, 0)
             keys.append((k, code))
         return Spec(keys, d["tags"], [(k, t, None if s_ is None else [tuple(x) for x in s_]) for k, t, s_ in d["members"]],
-                    None if d["support"] is None else [tuple(x) for x in d["support"]], d["bypass_check"], islist=d.get("list_input", False))
+                    None if d["support"] is None else [tuple(x) for x in d["support"]], d["bypass_check"], hastag=not d.get("no_tag", False),
+                    islist=d.get("list_input", False), form=d.get("form"))
     res = C.Result()
     if "base" in inp:
         b, a = spec_of(inp["base"]), spec_of(inp["aux"])
         ops = [("restrict", [tuple(x) for x in o[1]]) if o[0] == "restrict" else tuple(o) for o in inp["ops"]]
         line = C.run_model(["\t".join(["hist"] + b.args() + a.args() + [x for o in ops for x in op_args(o)])], driver="driver_c12")[0]
-        run_history(nap, res, b, a, ops, line)
+        run_history(nap, res, b, a, ops, line, [{"f": f_} for f_ in inp["styles"]] if "styles" in inp else None, inp.get("source"))
     elif "groups" in inp:
         specs = [spec_of(d) for d in inp["groups"]]
         gs = [sp.build(nap)[0] for sp in specs]
+        if inp.get("call_form") == 4:
+            gs[-1] = gs[0]
         try:
             r = nap.TsGroup.merge_group(*gs, reset_index=bool(inp["reset_index"]), reset_time_support=bool(inp["reset_time_support"]), ignore_metadata=bool(inp["ignore_metadata"]))
             print("merged keys", list(r.keys()))
